@@ -79,6 +79,8 @@ pub enum Vp {
     Falsey,
     NonEmpty,
     Pv(Vec<PvSpec>),
+    /// `RangedI64ValueParser::<u8>::new()`: the public constructor, bounds wider than the target type
+    U8New,
 }
 
 #[derive(Clone, Debug, PartialEq, Eq, Hash, Default, Serialize, Deserialize)]
@@ -177,6 +179,12 @@ pub struct CmdSpec {
     pub settings: Vec<Setting>,
     /// settings switched on and off again by the builder (`.x(true).x(false)`) before anything else
     pub toggled: Vec<Setting>,
+    /// one setting switched on inside `Command::defer` (the closure runs at the first build;
+    /// `defer` takes a plain fn pointer, so the menu is one static function per setting)
+    pub deferred_setting: Option<Setting>,
+    /// argument ids passed through `Command::mut_arg(id, |a| a)` after the definition is complete
+    /// (an identity edit: re-inserts the argument at the end of the argument list)
+    pub touch: Vec<String>,
     pub args: Vec<ArgSpec>,
     pub groups: Vec<GroupSpec>,
     pub subs: Vec<CmdSpec>,
@@ -206,11 +214,12 @@ impl CmdSpec {
     pub fn new(name: &str) -> CmdSpec {
         CmdSpec { name: name.to_string(), ..Default::default() }
     }
+    /// the setting is in effect (set directly or through the deferred initialiser)
     pub fn has(&self, s: Setting) -> bool {
-        self.settings.contains(&s)
+        self.settings.contains(&s) || self.deferred_setting == Some(s)
     }
     pub fn set(&mut self, s: Setting) {
-        if !self.has(s) {
+        if !self.settings.contains(&s) {
             self.settings.push(s);
         }
     }
@@ -401,6 +410,7 @@ pub fn build_arg(s: &ArgSpec) -> Arg {
         Vp::Boolish => a = a.value_parser(clap::builder::BoolishValueParser::new()),
         Vp::Falsey => a = a.value_parser(clap::builder::FalseyValueParser::new()),
         Vp::NonEmpty => a = a.value_parser(clap::builder::NonEmptyStringValueParser::new()),
+        Vp::U8New => a = a.value_parser(clap::builder::RangedI64ValueParser::<u8>::new()),
         Vp::Pv(pvs) => {
             let vals: Vec<PossibleValue> = pvs
                 .iter()
@@ -555,6 +565,27 @@ pub fn build(s: &CmdSpec) -> Command {
     for x in &s.visible_long_flag_aliases {
         c = c.visible_long_flag_alias(x.clone());
     }
+    c = build_rest(c, s);
+    if let Some(st) = s.deferred_setting {
+        c = c.defer(deferred_fn(st));
+    }
+    c
+}
+
+fn deferred_fn(st: Setting) -> fn(Command) -> Command {
+    macro_rules! f {
+        ($($v:ident),*) => {
+            match st {
+                $(Setting::$v => { fn g(c: Command) -> Command { apply_setting(c, Setting::$v, true) } g })*
+            }
+        };
+    }
+    f!(ArgsConflictsWithSubcommands, SubcommandPrecedenceOverArg, InferLongArgs, InferSubcommands, ArgsOverrideSelf, DontDelimitTrailingValues,
+       AllowMissingPositional, SubcommandNegatesReqs, SubcommandRequired, ArgRequiredElseHelp, DisableHelpFlag, DisableHelpSubcommand,
+       DisableVersionFlag, Multicall, NoBinaryName, PropagateVersion, IgnoreErrors, NextLineHelp, FlattenHelp, HidePossibleValues, DontCollapseArgsInUsage)
+}
+
+fn build_rest(mut c: Command, s: &CmdSpec) -> Command {
     for st in &s.toggled {
         c = apply_setting(apply_setting(c, *st, true), *st, false);
     }
@@ -637,6 +668,9 @@ pub fn build(s: &CmdSpec) -> Command {
     }
     for sub in &s.subs {
         c = c.subcommand(build(sub));
+    }
+    for id in &s.touch {
+        c = c.mut_arg(id.clone(), |a| a);
     }
     c
 }
